@@ -117,7 +117,13 @@ ElemLiteralResult::init(
         const XalanDOMString::size_type     indexOfNSSep = indexOf(aname, XalanUnicode::charColon);
         const XalanDOMString::size_type     len = length(aname);
 
-        if (indexOfNSSep < len)
+        if (equals(aname, DOMServices::s_XMLNamespace))
+        {
+            // don't process the default namespace declaration either.  It is
+            // written by the NamespacesHandler, unless it is excluded.
+            needToProcess = false;
+        }
+        else if (indexOfNSSep < len)
         {
             substring(aname, theBuffer, 0, indexOfNSSep);
 
